@@ -201,6 +201,7 @@ inline int harness_main(int argc, char** argv, Registry& reg) {
   unsigned size = 30;
   bool enumerate = false;
   unsigned shard = 0, nshards = 1;
+  double shrink_budget = 90;
   for (int i = 1; i < argc; i++) {
     std::string a = argv[i];
     auto next = [&]() -> std::string { return i + 1 < argc ? argv[++i] : ""; };
@@ -211,6 +212,7 @@ inline int harness_main(int argc, char** argv, Registry& reg) {
     else if (a == "--out") out = next();
     else if (a == "--replay") replay = next();
     else if (a == "--known") { std::string k = next(); size_t p0 = 0; while (p0 <= k.size()) { size_t q = k.find(',', p0); if (q == std::string::npos) q = k.size(); if (q > p0) known_sigs().insert(k.substr(p0, q - p0)); p0 = q + 1; } }
+    else if (a == "--shrink-budget") shrink_budget = atof(next().c_str());
     else if (a == "--enumerate") enumerate = true;
     else if (a == "--shard") shard = (unsigned)strtoul(next().c_str(), 0, 10);
     else if (a == "--nshards") nshards = (unsigned)strtoul(next().c_str(), 0, 10);
@@ -237,7 +239,12 @@ inline int harness_main(int argc, char** argv, Registry& reg) {
   auto wall = [&] { return std::chrono::duration<double>(std::chrono::steady_clock::now() - t0).count(); };
   std::string failmsg;
 
+  // Shrinking is bounded by wall clock: once the budget since the first failure is used up, remaining shrink
+  // candidates are skipped (they count as passing), which ends rapidcheck's shrink loop; the saved failing
+  // case is the smallest one found so far.
+  double first_fail_at = -1;
   auto run_one = [&](Chooser& ch, bool is_replay) {
+    if (first_fail_at >= 0 && wall() - first_fail_at > shrink_budget) return;
     Case cs{ch, st, size};
     cs.replay = is_replay;
     cs.scratch = scratch;
@@ -248,6 +255,7 @@ inline int harness_main(int argc, char** argv, Registry& reg) {
       fn(cs);
     } catch (const Failure& f) {
       failmsg = f.what();
+      if (first_fail_at < 0) first_fail_at = wall();
       save_choices(out + ".fail.choices", ch.log, header + "# failure: " + jesc(failmsg) + "\n");
       FILE* fr = fopen((out + ".fail.txt").c_str(), "w");
       if (fr) { fprintf(fr, "%s\n---- case ----\n%s\n", failmsg.c_str(), cs.sample.c_str()); fclose(fr); }
